@@ -14,25 +14,25 @@ func init() { register("C02", true, runC02) }
 // c02GuardExceptions: index/slice sites on the parse path whose bound rests on an
 // invariant the guard engine cannot derive; each confirmed by reading.
 var c02GuardExceptions = map[string]string{
-	"idx:profile.parseJavaHeader:var b[high=φnextNewLine]":                                  "nextNewLine is bytes.IndexByte(b, '\\n') of the current b and the loop runs only while it is != -1, so 0 <= nextNewLine < len(b)",
-	"idx:profile.parseJavaHeader:var b[low=φnextNewLine+1]":                                 "same: nextNewLine < len(b), so nextNewLine+1 <= len(b)",
-	"idx:profile.parseJavaSamples:var b[high=φnextNewLine]":                                 "nextNewLine is bytes.IndexByte(b, '\\n') of the current b and the loop runs only while it is != -1",
-	"idx:profile.parseJavaSamples:var b[low=φnextNewLine+1]":                                "same: nextNewLine < len(b), so nextNewLine+1 <= len(b)",
-	"idx:profile.init$38:profile.Profile.stringTable[0]":                                    "reached only after decodeStrings returned nil, which appended one element to the table",
-	"idx:(*profile.Profile).postDecode:var locBuffer[high=len(profile.Sample.locationIDX)]": "locBuffer is allocated with the sum of len(s.locationIDX) over all samples and consumed in the same order, so at least len(s.locationIDX) elements remain",
-	"idx:(*profile.Profile).postDecode:var locBuffer[low=len(profile.Sample.locationIDX)]":  "same invariant as the line above",
-	"idx:(*profile.Profile).postDecode:profile.Sample.Location[φrangeindex+1]":              "s.Location was just set to locBuffer[:len(s.locationIDX)] and the loop ranges over s.locationIDX",
-	"idx:(*profile.Profile).postDecode:profile.Sample.Location[φrangeindex+1]#2":            "s.Location was just set to locBuffer[:len(s.locationIDX)] and the loop ranges over s.locationIDX",
-	"idx:profile.init$5:profile.Sample.labelX[len(profile.Sample.labelX)]":                  "n is the length before the append of one element in the preceding statement, so n < len afterwards",
-	"idx:profile.init$23:profile.Location.Line[len(profile.Location.Line)]":                 "n is the length before the append of one element in the preceding statement, so n < len afterwards",
-	"idx:(*profile.Profile).preEncode:profile.Sample.NumUnit[…][φrangeindex+1]":             "NumUnit[k] is either empty (tested) or as long as NumLabel[k]: postDecode pads every unit list to the value count (checked structurally as C01-R6) and mapSample copies lists of equal length",
-	"idx:(*profile.Profile).preEncode:profile.Sample.locationIDX[φrangeindex+1]":            "s.locationIDX was just made with len(s.Location), the slice the loop ranges over",
-	"idx:(*profile.Profile).preEncode:profile.Profile.stringTable[*ssa.Next#2]":             "stringTable is made with len(strings) and every value of the strings map is an index handed out by addString as len(strings) at insertion, hence < len(strings)",
-	"idx:profile.parseCPUSamples:make[φi]":                                                  "addrs is make([]uint64, nstk) and the loop runs for i < int(nstk)",
-	"idx:profile.parseCPUSamples:make[0]":                                                   "evaluated only when nstk == 1 (short-circuit &&), and addrs has nstk elements",
-	"idx:profile.parseThread:profile.Sample.Value[0]":                                       "every sample of a thread profile is appended by parseThread itself with Value: []int64{1}",
-	"idx:profile.removeLoggingInfo:param line[low=*&call FindStringIndex[…]]":               "regexp contract: a non-nil FindStringIndex result m satisfies 0 <= m[0] <= m[1] <= len(line)",
-	"idx:profile.isProfileType:*&param types[…][φrangeindex+1]":                             "the loop over st runs only after len(st) == len(t) was checked",
+	"idx:profile.parseJavaHeader:var []byte[high=φ]":                                                  "nextNewLine is bytes.IndexByte(b, '\\n') of the current b and the loop runs only while it is != -1, so 0 <= nextNewLine < len(b)",
+	"idx:profile.parseJavaHeader:var []byte[low=φ+1]":                                                 "same: nextNewLine < len(b), so nextNewLine+1 <= len(b)",
+	"idx:profile.parseJavaSamples:var []byte[high=φ]":                                                 "nextNewLine is bytes.IndexByte(b, '\\n') of the current b and the loop runs only while it is != -1",
+	"idx:profile.parseJavaSamples:var []byte[low=φ+1]":                                                "same: nextNewLine < len(b), so nextNewLine+1 <= len(b)",
+	"idx:(*profile.Profile).preEncode:profile.Sample.NumUnit[…][φ+1]":                                 "NumUnit[k] is either empty (tested) or as long as NumLabel[k]: postDecode pads every unit list to the value count (checked structurally as C01-R6) and mapSample copies lists of equal length",
+	"idx:(*profile.Profile).preEncode:profile.Sample.locationIDX[φ+1]":                                "s.locationIDX was just made with len(s.Location), the slice the loop ranges over",
+	"idx:(*profile.Profile).postDecode:var []*profile.Location[high=len(profile.Sample.locationIDX)]": "locBuffer is allocated with the sum of len(s.locationIDX) over all samples and consumed in the same order, so at least len(s.locationIDX) elements remain",
+	"idx:(*profile.Profile).postDecode:var []*profile.Location[low=len(profile.Sample.locationIDX)]":  "same invariant as the line above",
+	"idx:(*profile.Profile).postDecode:profile.Sample.Location[φ+1]":                                  "s.Location was just set to locBuffer[:len(s.locationIDX)] and the loop ranges over s.locationIDX",
+	"idx:(*profile.Profile).postDecode:profile.Sample.Location[φ+1]#2":                                "s.Location was just set to locBuffer[:len(s.locationIDX)] and the loop ranges over s.locationIDX",
+	"idx:profile.parseCPUSamples:make[φ]":                                                             "addrs is make([]uint64, nstk) and the loop runs for i < int(nstk)",
+	"idx:profile.removeLoggingInfo:param#0 string[low=*&call FindStringIndex[…]]":                     "regexp contract: a non-nil FindStringIndex result m satisfies 0 <= m[0] <= m[1] <= len(line)",
+	"idx:profile.isProfileType:*&param#1 [][]string[…][φ+1]":                                          "the loop over st runs only after len(st) == len(t) was checked",
+	"idx:profile.init$38:profile.Profile.stringTable[0]":                                              "reached only after decodeStrings returned nil, which appended one element to the table",
+	"idx:profile.init$5:profile.Sample.labelX[len(profile.Sample.labelX)]":                            "n is the length before the append of one element in the preceding statement, so n < len afterwards",
+	"idx:profile.init$23:profile.Location.Line[len(profile.Location.Line)]":                           "n is the length before the append of one element in the preceding statement, so n < len afterwards",
+	"idx:(*profile.Profile).preEncode:profile.Profile.stringTable[*ssa.Next#2]":                       "stringTable is made with len(strings) and every value of the strings map is an index handed out by addString as len(strings) at insertion, hence < len(strings)",
+	"idx:profile.parseCPUSamples:make[0]":                                                             "evaluated only when nstk == 1 (short-circuit &&), and addrs has nstk elements",
+	"idx:profile.parseThread:profile.Sample.Value[0]":                                                 "every sample of a thread profile is appended by parseThread itself with Value: []int64{1}",
 }
 
 // c02ExceptionHooks re-verify the producer side of reviewed invariants (see c09ExceptionHooks).
@@ -451,6 +451,27 @@ func (c *Check) validityGateContent() {
 						// len(table) != len(list) after the loop
 						if lx := lenArg(x); lx == ssa.Value(mk) && lenArg(y) != nil {
 							has["unique id"] = true
+						}
+					}
+				}
+			}
+			// `if _, dup := table[id]; dup` form: a comma-ok lookup whose flag decides a branch
+			for _, b2 := range cv.Blocks {
+				if !(b2 == b || b2.Dominates(b)) {
+					continue
+				}
+				for _, i2 := range b2.Instrs {
+					lk, ok := i2.(*ssa.Lookup)
+					if !ok || !lk.CommaOk || lk.X != ssa.Value(mk) || lk.Referrers() == nil {
+						continue
+					}
+					for _, r := range *lk.Referrers() {
+						if ex, ok := r.(*ssa.Extract); ok && ex.Index == 1 && ex.Referrers() != nil {
+							for _, r2 := range *ex.Referrers() {
+								if _, isIf := r2.(*ssa.If); isIf {
+									has["unique id"] = true
+								}
+							}
 						}
 					}
 				}
